@@ -11,6 +11,8 @@ import (
 func init() {
 	commands["file-exh"] = fileExh
 	commands["file-cases"] = fileCases
+	commands["file-exh-h"] = fileExhHistory
+	commands["file-cases-h"] = fileCasesHistory
 	commands["errstr-cases"] = errstrCases
 }
 
@@ -105,3 +107,61 @@ func errsOf(args []string) {
 }
 
 func init() { commands["errs-of"] = errsOf }
+
+// History variants: ONE token.File per text is reused for the whole sequence of Position calls (ascending, then
+// descending order of (pos, end)), the way a parser reuses its File for every error it reports.  Position is
+// specified as a function of (text, pos, end), so every answer must equal the fresh-File answer.
+func fileLineOn(f *token.File, text string, pos, end int) (line string) {
+	defer func() {
+		if r := recover(); r != nil {
+			line = fmt.Sprintf("%s %d %d CRASH", hx(text), pos, end)
+		}
+	}()
+	p := f.Position(token.Pos(pos), token.Pos(end))
+	return fmt.Sprintf("%s %d %d %d %d %d %d %s", hx(text), pos, end, p.Line, p.Column, p.EndLine, p.EndColumn, hx(p.Source))
+}
+
+func fileExhHistory(args []string) {
+	maxlen := atoi(args[0])
+	var rec func(prefix string, n int)
+	rec = func(prefix string, n int) {
+		l := len(prefix)
+		f := &token.File{FilePath: "", Buffer: prefix}
+		for p := -1; p <= l+1; p++ {
+			for e := -1; e <= l+1; e++ {
+				fmt.Fprintln(out, fileLineOn(f, prefix, p, e))
+			}
+		}
+		// descending pass on the same File, printed in ascending order
+		var lines []string
+		for p := l + 1; p >= -1; p-- {
+			for e := l + 1; e >= -1; e-- {
+				lines = append(lines, fileLineOn(f, prefix, p, e))
+			}
+		}
+		for i := len(lines) - 1; i >= 0; i-- {
+			fmt.Fprintln(out, "D "+lines[i])
+		}
+		if n < maxlen {
+			for _, s := range fileAlphabet {
+				rec(prefix+s, n+1)
+			}
+		}
+	}
+	rec("", 0)
+}
+
+func fileCasesHistory(args []string) {
+	var f *token.File
+	stdinLines(func(line string) {
+		fs := strings.Fields(line)
+		if len(fs) != 3 {
+			return
+		}
+		text := unhx(fs[0])
+		if f == nil || f.Buffer != text {
+			f = &token.File{FilePath: "", Buffer: text}
+		}
+		fmt.Fprintln(out, fileLineOn(f, text, atoi(fs[1]), atoi(fs[2])))
+	})
+}
